@@ -51,3 +51,42 @@ contract(CMD + "CapabilitiesResponse._parse_capabilities#wf",
                  "record_interpreted_alone_and_merged_in_order":
                      "self._capabilities == merged(pre(self._capabilities), interp_alone(payload[pre(off):pre(off) + 3 + payload[pre(off) + 2]]))",
              }}})
+
+
+# ---- derived capabilities are functions of the merged dictionary alone (so they survive paging: merge() only updates the dictionary) ----
+def fan_spec(caps, speed):
+    if any(k.startswith("fan_") for k in caps):
+        return caps.get("fan_" + speed, False) or caps.get("fan_custom", False)
+    return speed in ["low", "medium", "high", "auto"]
+
+
+contract(CMD + "CapabilitiesResponse.fan_silent",
+         params={"self": "obj:" + CMD + "CapabilitiesResponse"},
+         raises={},
+         returns="fan_spec(self._capabilities, 'silent')",
+         notes="C15: a fan speed capability is decided by the capability dictionary as it is now (after any merge), not by anything remembered from parse time")
+
+contract(CMD + "CapabilitiesResponse.fan_low",
+         params={"self": "obj:" + CMD + "CapabilitiesResponse"},
+         raises={},
+         returns="fan_spec(self._capabilities, 'low')",
+         notes="C15: a fan speed capability is decided by the capability dictionary as it is now (after any merge), not by anything remembered from parse time")
+
+contract(CMD + "CapabilitiesResponse.fan_medium",
+         params={"self": "obj:" + CMD + "CapabilitiesResponse"},
+         raises={},
+         returns="fan_spec(self._capabilities, 'medium')",
+         notes="C15: a fan speed capability is decided by the capability dictionary as it is now (after any merge), not by anything remembered from parse time")
+
+contract(CMD + "CapabilitiesResponse.fan_high",
+         params={"self": "obj:" + CMD + "CapabilitiesResponse"},
+         raises={},
+         returns="fan_spec(self._capabilities, 'high')",
+         notes="C15: a fan speed capability is decided by the capability dictionary as it is now (after any merge), not by anything remembered from parse time")
+
+contract(CMD + "CapabilitiesResponse.fan_auto",
+         params={"self": "obj:" + CMD + "CapabilitiesResponse"},
+         raises={},
+         returns="fan_spec(self._capabilities, 'auto')",
+         notes="C15: a fan speed capability is decided by the capability dictionary as it is now (after any merge), not by anything remembered from parse time")
+
